@@ -197,21 +197,32 @@ type c07Scanner interface {
 }
 
 type c07Scenario struct {
-	target   string // pbf | xml
-	procs    int
-	k        int    // stop after k successful scans (or at end of input, whichever first)
-	stop     string // close | cancel-self | cancel-flag | cancel-reader | cancel-timer | none
-	post     string // letters: S scan, E err, C close
-	header   bool
-	faultAt  int64 // inject I/O error at this Read call (0 = none)
-	slowCons bool
+	target     string // pbf | xml
+	procs      int
+	k          int    // stop after k successful scans (or at end of input, whichever first)
+	stop       string // close | cancel-self | cancel-flag | cancel-reader | cancel-timer | none
+	post       string // letters: S scan, E err, C close
+	header     bool
+	faultAt    int64 // inject I/O error at this Read call (0 = none)
+	slowCons   bool
+	slowReader bool // the reader sleeps at every block start (Close/cancel meet it inside Read)
 }
 
-func c07XMLDoc(r *gen.R, n int) ([]byte, []c08Key) {
+// c07XMLDoc writes n objects; with filler > 0 a run of that many bytes of object-less tokens
+// (unknown elements, comments) is placed after object fillerAfter, and its offsets returned.
+func c07XMLDoc(r *gen.R, n int, filler int, fillerAfter int) ([]byte, []c08Key, int64, int64) {
 	var sb strings.Builder
 	var keys []c08Key
+	var fillFrom, fillTo int64
 	sb.WriteString(`<?xml version="1.0" encoding="UTF-8"?>` + "\n" + `<osm version="0.6" generator="verif">` + "\n")
 	for i := 0; i < n; i++ {
+		if filler > 0 && i == fillerAfter {
+			fillFrom = int64(sb.Len())
+			for sb.Len()-int(fillFrom) < filler {
+				fmt.Fprintf(&sb, ` <!-- filler %d --><meta osm_base="x%d"/><remark>text %d</remark>`+"\n", sb.Len(), i, sb.Len())
+			}
+			fillTo = int64(sb.Len())
+		}
 		id := int64(i + 1)
 		switch r.Intn(3) {
 		case 0:
@@ -226,7 +237,7 @@ func c07XMLDoc(r *gen.R, n int) ([]byte, []c08Key) {
 		}
 	}
 	sb.WriteString("</osm>\n")
-	return []byte(sb.String()), keys
+	return []byte(sb.String()), keys, fillFrom, fillTo
 }
 
 type c07Input struct {
@@ -234,17 +245,22 @@ type c07Input struct {
 	keys   []c08Key // expected object identities in order
 	lay    *pbfw.Layout
 	blocks int
+	// XML: a run of object-less tokens [fillFrom, fillTo) in the document
+	fillFrom, fillTo int64
 }
 
 func c07MakeInput(seed uint64, target string, size string) c07Input {
 	r := gen.New(seed, "c07input"+target+size)
 	if target == "xml" {
-		n := 25
-		if size == "big" {
+		n, filler := 25, 0
+		switch size {
+		case "big":
 			n = 6000
+		case "filler":
+			n, filler = 400, 600_000
 		}
-		data, keys := c07XMLDoc(r, n)
-		return c07Input{data: data, keys: keys}
+		data, keys, ff, ft := c07XMLDoc(r, n, filler, n/4)
+		return c07Input{data: data, keys: keys, fillFrom: ff, fillTo: ft}
 	}
 	o := pbfw.GenOpts{MinBlocks: 6, MaxBlocks: 6, MaxGroups: 1, MaxElems: 5, SmallStrings: true}
 	if size == "big" {
@@ -280,6 +296,8 @@ func c07Run(res *fw.Result, in c07Input, sc c07Scenario, key string) {
 	// the canceller is started before the scanner so that nothing the consumer does is
 	// ordered before it; it is released by a trigger that does not involve the consumer
 	// except for the explicitly ordered "cancel-flag" kind.
+	var bytesAtCancel atomic.Int64
+	bytesAtCancel.Store(-1)
 	trigger := make(chan struct{})
 	var once sync.Once
 	fire := func() { once.Do(func() { close(trigger) }) }
@@ -290,6 +308,7 @@ func c07Run(res *fw.Result, in c07Input, sc c07Scenario, key string) {
 			defer close(cancelDone)
 			<-trigger
 			hist.do(1, mk("cancel"), func() c07Out { cancel(); return c07Out{} })
+			bytesAtCancel.Store(rd.Bytes())
 		}()
 	} else {
 		close(cancelDone)
@@ -305,6 +324,21 @@ func c07Run(res *fw.Result, in c07Input, sc c07Scenario, key string) {
 			if off <= at && at < off+int64(n) {
 				fire()
 			}
+		}
+	}
+	if sc.stop == "cancel-reader" && in.lay == nil && in.fillTo > in.fillFrom {
+		// XML: cancel while a Scan is in the middle of a long run of object-less tokens
+		at := in.fillFrom + (in.fillTo-in.fillFrom)/8
+		rd.OnRead = func(off int64, n int) {
+			if off <= at && at < off+int64(n) {
+				fire()
+			}
+		}
+	}
+	if sc.slowReader && in.lay != nil {
+		rd.DelayAt = map[int64]time.Duration{}
+		for _, st := range in.lay.Start {
+			rd.DelayAt[st] = 800 * time.Microsecond
 		}
 	}
 	if sc.stop == "cancel-timer" {
@@ -353,11 +387,28 @@ func c07Run(res *fw.Result, in c07Input, sc c07Scenario, key string) {
 		hist.do(0, mk("close"), func() c07Out { s.Close(); return c07Out{} })
 		r1 = rd.Bytes()
 		stopped = true
+		if sc.target == "pbf" && sc.faultAt == 0 {
+			c07AtRest(res, key, rd)
+		}
 	case "cancel-self":
 		r0 = rd.Bytes()
 		hist.do(0, mk("cancel"), func() c07Out { cancel(); return c07Out{} })
 		r1 = rd.Bytes()
 		stopped = true
+	case "cancel-close":
+		// cancel and Close back to back: Close must still wait for the pipeline
+		r0 = rd.Bytes()
+		hist.do(0, mk("cancel"), func() c07Out { cancel(); return c07Out{} })
+		hist.do(0, mk("close"), func() c07Out { s.Close(); return c07Out{} })
+		r1 = rd.Bytes()
+		if sc.target == "pbf" && sc.faultAt == 0 {
+			c07AtRest(res, key, rd)
+			if left := mon.LibGoroutines(c07Lib); len(left) > 0 {
+				if left = mon.WaitNoLibGoroutines(c07Lib, 20); len(left) > 0 {
+					res.Violate(key+"/goroutines-after-close", fmt.Sprintf("%d osmpbf goroutines alive after cancel+Close returned", len(left)), left)
+				}
+			}
+		}
 	case "cancel-flag":
 		r0 = rd.Bytes()
 		fire()
@@ -379,6 +430,23 @@ func c07Run(res *fw.Result, in c07Input, sc c07Scenario, key string) {
 		}
 	}
 	<-cancelDone
+	if concurrentCancel && sc.faultAt == 0 {
+		// bytes pulled after the concurrent cancel had returned, until the scanner stopped
+		if sc.target == "pbf" {
+			mon.WaitNoLibGoroutines(c07Lib, 400)
+		}
+		if at := bytesAtCancel.Load(); at >= 0 {
+			remainder := int64(len(in.data)) - at
+			after := rd.Bytes() - at
+			if remainder >= 100_000 {
+				if after > remainder/4 {
+					res.Violate(key+"/reads-rest-of-input", fmt.Sprintf("cancel by %s: %d of the remaining %d bytes were still consumed after the cancellation had returned (allowance %d)", sc.stop, after, remainder, remainder/4),
+						map[string]any{"bytes_at_cancel": at, "bytes_after": rd.Bytes(), "input_bytes": len(in.data)})
+				}
+				res.SetMax("readahead_after_stop_permille", after*1000/remainder)
+			}
+		}
+	}
 
 	// (b) nothing reads in the background once the stop call has returned
 	if stopped && sc.target == "pbf" && sc.faultAt == 0 {
@@ -443,7 +511,11 @@ func c07Run(res *fw.Result, in c07Input, sc c07Scenario, key string) {
 	}
 
 	// post operations
-	c07Post(hist, s, sc.post, mk, scan)
+	if sc.target == "pbf" && sc.faultAt == 0 {
+		c07PostChecked(res, key, rd, hist, s, sc.post, mk, scan)
+	} else {
+		c07Post(hist, s, sc.post, mk, scan)
+	}
 	// always leave the process clean for the next case
 	s.Close()
 	if sc.target == "pbf" {
@@ -477,6 +549,12 @@ func tail(ops []porcupine.Operation, n int) []porcupine.Operation {
 }
 
 func c07Post(hist *c07Hist, s c07Scanner, post string, mk func(string) c07In, scan func() c07Out) {
+	c07PostChecked(nil, "", nil, hist, s, post, mk, scan)
+}
+
+// c07PostChecked runs the post operations; after every Close of a PBF scanner it checks that
+// the pipeline really is at rest: nobody is inside the user's Read and no further Read follows.
+func c07PostChecked(res *fw.Result, key string, rd *mon.Reader, hist *c07Hist, s c07Scanner, post string, mk func(string) c07In, scan func() c07Out) {
 	for _, ch := range post {
 		switch ch {
 		case 'S':
@@ -485,8 +563,24 @@ func c07Post(hist *c07Hist, s c07Scanner, post string, mk func(string) c07In, sc
 			hist.do(0, mk("err"), func() c07Out { return c07Out{Err: c07ErrClass(s.Err())} })
 		case 'C':
 			hist.do(0, mk("close"), func() c07Out { s.Close(); return c07Out{} })
+			if res != nil && rd != nil {
+				c07AtRest(res, key, rd)
+			}
 		}
 	}
+}
+
+// c07AtRest: Close has just returned.
+func c07AtRest(res *fw.Result, key string, rd *mon.Reader) {
+	if rd.InRead() {
+		res.Violatef(key+"/close-returned-during-read", "Close returned while a scanner goroutine is still inside the input reader's Read")
+	}
+	calls := rd.Calls()
+	time.Sleep(1500 * time.Microsecond)
+	if n := rd.Calls() - calls; n > 0 {
+		res.Violatef(key+"/reads-after-close-returned", "%d Read calls were issued after Close had returned", n)
+	}
+	res.Add("close_at_rest_checks", 1)
 }
 
 // c07Endless: Close / cancel on an endless stream must let the scenario finish without
@@ -552,7 +646,7 @@ func c07Exec(c fw.Case) *fw.Result {
 	target := c.Str("target")
 	in := c07MakeInput(c.Seed, target, c.Str("size"))
 	sc := c07Scenario{target: target, procs: int(c.Int("procs")), stop: c.Str("stop"), post: c.Str("post"),
-		header: c.Int("header") == 1, faultAt: c.Int("fault"), slowCons: c.Int("slow") == 1}
+		header: c.Int("header") == 1, faultAt: c.Int("fault"), slowCons: c.Int("slow") == 1, slowReader: c.Int("slowreader") == 1}
 	N := len(in.keys)
 	ks := []int{int(c.Int("k"))}
 	if c.Int("allk") == 1 {
@@ -593,7 +687,7 @@ func c07Cases(tier string, seed uint64) []fw.Case {
 	}
 	for fi := 0; fi < nfiles; fi++ {
 		for _, target := range []string{"pbf", "xml"} {
-			for si, stop := range []string{"close", "cancel-self", "cancel-flag"} {
+			for si, stop := range []string{"close", "cancel-self", "cancel-flag", "cancel-close"} {
 				for pi, procs := range procsList {
 					if target == "xml" && pi > 0 {
 						continue
@@ -603,7 +697,7 @@ func c07Cases(tier string, seed uint64) []fw.Case {
 							continue
 						}
 						cs = append(cs, fw.Case{Kind: "allk", Variant: "race", Seed: gen.Sub(seed, "c07small", fi),
-							P: map[string]int64{"procs": procs, "allk": 1, "header": hi},
+							P: map[string]int64{"procs": procs, "allk": 1, "header": hi, "slowreader": int64(b2i(target == "pbf" && ((si+pi)%2 == 1 || stop == "cancel-close")))},
 							S: map[string]string{"target": target, "size": "small", "stop": stop, "post": c07Posts[(si+pi+int(hi)+fi)%len(c07Posts)]}})
 					}
 				}
@@ -616,7 +710,7 @@ func c07Cases(tier string, seed uint64) []fw.Case {
 		nbig = 200
 	}
 	for i := 0; i < nbig; i++ {
-		stop := []string{"close", "cancel-self", "close"}[i%3]
+		stop := []string{"close", "cancel-self", "cancel-close"}[i%3]
 		target := "pbf"
 		if i%6 == 5 {
 			target = "xml"
@@ -642,6 +736,16 @@ func c07Cases(tier string, seed uint64) []fw.Case {
 			P: map[string]int64{"procs": procsList[(i/2)%4], "k": int64(3 + (i*7)%60), "slow": int64(b2i(i%4 < 2))},
 			S: map[string]string{"target": target, "size": "big", "stop": stop, "post": "SE"}})
 	}
+	// (3b) XML: cancellation arriving while a Scan is inside a long run of object-less tokens
+	nfill := 6
+	if tier == "thorough" {
+		nfill = 40
+	}
+	for i := 0; i < nfill; i++ {
+		cs = append(cs, fw.Case{Kind: "xmlfiller", Variant: []string{"plain", "race"}[i%2], Seed: gen.Sub(seed, "c07fill", i),
+			P: map[string]int64{"procs": 1, "k": 400, "slow": 0},
+			S: map[string]string{"target": "xml", "size": "filler", "stop": "cancel-reader", "post": "SE"}})
+	}
 	// (4) histories with an injected reader error
 	nfault := 16
 	if tier == "thorough" {
@@ -665,7 +769,7 @@ func init() {
 	fw.Register(&fw.Prop{
 		ID:    "C07",
 		Level: "fault_enumeration",
-		Rule: "call histories Header? Scan×k stop post-ops for EVERY k=0..N+1 of small PBF and XML inputs × stop kind {Close, cancel from the scanning goroutine, cancel from a second goroutine overlapping further Scans} × decoders {1,2,4,16} (race build), checked for linearizability against a sequential scanner model with porcupine; " +
+		Rule: "call histories Header? Scan×k stop post-ops for EVERY k=0..N+1 of small PBF and XML inputs × stop kind {Close, cancel from the scanning goroutine, cancel from a second goroutine overlapping further Scans, cancel immediately followed by Close with a slow reader} × decoders {1,2,4,16} (race build), checked for linearizability against a sequential scanner model with porcupine; " +
 			"300-block inputs with a counting reader for the bytes consumed after the stop; cancellation from the reader goroutine's Read callback or a timer with a slow consumer under the race detector; histories with an injected I/O error; endless input with a logical byte budget. " +
 			"Signature = (target, stop kind, decoders, stop-position class, post-ops, fault injected).",
 		Assumptions: []string{
